@@ -11,24 +11,27 @@ vars == <<s, fn, p1, p2, stage>>
 Init == s = <<>> /\ fn = "" /\ p1 = 0 /\ p2 = 0 /\ stage = 0
 AddCp(c) == stage = 0 /\ Len(s) < MaxLen /\ s' = Append(s, c) /\ UNCHANGED <<fn, p1, p2, stage>>
 PickFn(f) == stage = 0 /\ fn' = f /\ stage' = 1 /\ UNCHANGED <<s, p1, p2>>
-PickP1(x) == stage = 1 /\ p1' = x /\ stage' = (IF fn = "slice" THEN 2 ELSE 3) /\ UNCHANGED <<s, fn, p2>>
+PickP1(x) == stage = 1 /\ p1' = x /\ stage' = (IF fn \in {"slice", "split"} THEN 2 ELSE 3) /\ UNCHANGED <<s, fn, p2>>
 PickP2(y) == stage = 2 /\ p2' = y /\ stage' = 3 /\ UNCHANGED <<s, fn, p1>>
 Subs == << <<1>>, <<2>>, <<3>>, <<1, 2>>, <<>>, <<2, 3>>, <<4>> >>
 Next == \/ \E c \in 1..NAtoms : AddCp(c)
-        \/ \E f \in {"length", "slice", "slice1", "index", "insert"} : PickFn(f)
+        \/ \E f \in {"length", "slice", "slice1", "index", "insert", "split"} : PickFn(f)
         \/ (stage = 1 /\ fn \in {"slice", "slice1", "insert"} /\ \E x \in (0 - Range_)..Range_ : PickP1(x))
-        \/ (stage = 1 /\ fn = "index" /\ \E x \in 1..Len(Subs) : PickP1(x))
+        \/ (stage = 1 /\ fn \in {"index", "split"} /\ \E x \in 1..Len(Subs) : PickP1(x))
         \/ (stage = 1 /\ fn = "length" /\ PickP1(0))
-        \/ \E y \in (0 - Range_)..Range_ : PickP2(y)
+        \/ (fn = "slice" /\ \E y \in (0 - Range_)..Range_ : PickP2(y))
+        \/ (fn = "split" /\ stage = 2 /\ \E y \in 0..2 : (Subs[p1] = <<>> => y = 0) /\ PickP2(y))   \* limit: 0 = none; a limit with an empty
+                                                                                     \* separator is left open (reference unclear)
 Spec == Init /\ [][Next]_vars
 
-Laws == SliceWhole(s) /\ (\A k \in 1..MaxLen : SliceConcat(s, k)) /\ (stage = 3 /\ fn = "insert" => InsertLen(s, <<9>>, p1))
+Laws == (\A i \in 1..Len(Subs) : SplitJoin(s, Subs[i]) /\ SplitLimit(s, Subs[i], 1) /\ SplitLimit(s, Subs[i], 2)) /\ SliceWhole(s) /\ (\A k \in 1..MaxLen : SliceConcat(s, k)) /\ (stage = 3 /\ fn = "insert" => InsertLen(s, <<9>>, p1))
 
 Result == CASE fn = "length" -> [k |-> "int", v |-> Len(s)]
             [] fn = "slice" -> [k |-> "str", v |-> Slice(s, p1, p2)]
             [] fn = "slice1" -> [k |-> "str", v |-> Slice(s, p1, -1)]
             [] fn = "index" -> [k |-> "int", v |-> IndexOfSub(s, Subs[p1])]
             [] fn = "insert" -> [k |-> "str", v |-> Insert(s, <<9>>, p1)]
+            [] fn = "split" -> [k |-> "list", v |-> Split(s, Subs[p1], p2)]
 Emit == stage = 3 => PrintT(<<"CASE", ToJson([s |-> s, fn |-> fn, p1 |-> p1, p2 |-> p2,
-                                             sub |-> IF fn = "index" THEN Subs[p1] ELSE <<>>, result |-> Result])>>)
+                                             sub |-> IF fn \in {"index", "split"} THEN Subs[p1] ELSE <<>>, result |-> Result])>>)
 =============================================================================
